@@ -6,6 +6,7 @@
    of harness/props/c13.py. *)
 From Coq Require Import NArith List.
 Import ListNotations.
+From CXV Require Gen.TokTy Parse.Declarator Parse.BalancedThms Parse.DispatchLang Gen.Dispatch Parse.DispatchStaticAssertThms.
 From CXV Require Import Gen.TokTy Gen.ParserTables Parse.Balanced Parse.BalancedThms.
 Open Scope N_scope.
 
@@ -52,6 +53,15 @@ Print Assumptions discard_exact.
 Print Assumptions consume_balanced_exact.
 Print Assumptions region_independence.
 Print Assumptions consume_contiguous.
+
+(* static_assert, on the handler as translated from the code that exists now (Gen/Dispatch.v, _consume_static_assert):
+   exactly the parenthesized group is consumed, whatever it contains (any soup in which parentheses nest), and parsing
+   resumes at the token behind the matching ')' *)
+Theorem static_assert_is_skipped_exactly : forall kw lp soup rp R ic,
+  Declarator.kty lp = T_LIT_40 -> Declarator.kty rp = T_LIT_41 -> BalancedThms.bal Declarator.tk Declarator.kty T_LIT_40 T_LIT_41 soup ->
+  DispatchLang.run Dispatch.prog_consume_static_assert ic kw (lp :: soup ++ rp :: R) = DispatchLang.ODone R.
+Proof. exact DispatchStaticAssertThms.static_assert_skipped_exactly. Qed.
+Print Assumptions static_assert_is_skipped_exactly.
 
 (* non-vacuity: a concrete soup "( a < ( b > c ) [ ] )" meets the premises *)
 Example c13_nonvacuous :
